@@ -22,8 +22,9 @@ PROXY = "lunar-proxy.test:8000"
 TH = os.path.join(VERIF, "harness", "ts", "x04")
 DEV_LEG = "exception-in-gateway-leg-counts-as-gateway-failure"
 DEV_TWICE = "gateway-error-response-counts-twice"
-PINNED = {"java": [DEV_LEG, "ipv6-internal-destination-routed", "list-items-compared-as-typed", "unsupported-allow-item-raises"],
-          "ts": [DEV_LEG, DEV_TWICE, "names-never-resolved", "ipv6-literal-cut-at-colon", "list-items-compared-as-typed"]}
+DEV_EMPTY = "empty-allow-list-value-routes-nothing"
+PINNED = {"java": [DEV_LEG, "ipv6-internal-destination-routed", "list-items-compared-as-typed", "unsupported-allow-item-raises", DEV_EMPTY],
+          "ts": [DEV_LEG, DEV_TWICE, "names-never-resolved", "ipv6-literal-cut-at-colon", "list-items-compared-as-typed", DEV_EMPTY]}
 
 
 # ----------------------------------------------------------------------------------------------- plumbing
@@ -366,6 +367,7 @@ def part_model(ctx, with_ts):
              ("MC_X04Filter", "MC_X04Filter_java_nov6dev.cfg", "deviation ipv6-internal-destination-routed is needed"),
              ("MC_X04Filter", "MC_X04Filter_java_nocasedev.cfg", "deviation list-items-compared-as-typed is needed"),
              ("MC_X04Filter", "MC_X04Filter_java_noraisedev.cfg", "deviation unsupported-allow-item-raises is needed"),
+             ("MC_X04Filter", "MC_X04Filter_java_noemptydev.cfg", "deviation empty-allow-list-value-routes-nothing is needed"),
              ("MC_X04Filter", "MC_X04Filter_java_blockinv.cfg", "non-vacuity: inverted block-list test"),
              ("MC_X04Filter", "MC_X04Filter_java_no172.cfg", "non-vacuity: 172.16/12 missing from the private ranges"),
              ("MC_X04Filter", "MC_X04Filter_java_allowthrough.cfg", "non-vacuity: destination outside the allow list judged by the external test")]
@@ -388,6 +390,7 @@ def part_model(ctx, with_ts):
                   ("MC_X04Filter", "MC_X04Filter_ts_nonamesdev.cfg", "deviation names-never-resolved is needed"),
                   ("MC_X04Filter", "MC_X04Filter_ts_nocutdev.cfg", "deviation ipv6-literal-cut-at-colon is needed"),
                   ("MC_X04Filter", "MC_X04Filter_ts_nocasedev.cfg", "deviation list-items-compared-as-typed is needed"),
+                  ("MC_X04Filter", "MC_X04Filter_ts_noemptydev.cfg", "deviation empty-allow-list-value-routes-nothing is needed"),
                   ("MC_X04Filter", "MC_X04Filter_ts_blockinv.cfg", "non-vacuity: inverted block-list test"),
                   ("MC_X04Filter", "MC_X04Filter_ts_no172.cfg", "non-vacuity: 172.16/12 missing from the private ranges")]
     jobs = [(m, c, l, True) for m, c, l in fs_ok + f_ok] + [(m, c, l, False) for m, c, l in fs_bad + f_bad]
@@ -655,7 +658,8 @@ def judge_filter(ctx, trace_path, tag):
 
 def case_brief(c):
     return {"allow": [x["raw"] for x in c["allow"]], "block": [x["raw"] for x in c["block"]], "host": c["host"], "header": c["header"],
-            "resolves_to": c["ip"] or c["ip6"] or c["rsv"], "res": c["res"], "exc": c.get("exc", ""), "stage": c.get("stage", "")}
+            "resolves_to": c["ip"] or c["ip6"] or c["rsv"], "res": c["res"], "exc": c.get("exc", ""), "stage": c.get("stage", ""),
+            "envform": c.get("envform", "normal")}
 
 
 def witness_filter(c):
@@ -752,6 +756,8 @@ def part_filter(ctx, space, impl, node=None):
         hosts = [h for h in hosts if h["h"] != "127.1"]      # URL.host canonicalises the inet_aton spelling to 127.0.0.1 before the filter sees it
     single = [c for c in cfgs if len(c["allow"]) + len(c["block"]) <= 1]
     rest = [c for c in cfgs if len(c["allow"]) + len(c["block"]) > 1]
+    # LUNAR_ALLOW_LIST set to the empty string (the README: "If the value is empty ... check the LUNAR_BLOCK_LIST")
+    single += [{"allow": [], "block": b, "envform": "allow-empty"} for b in lists if len(b) <= 1][:4 if not T else 20]
     if not T:
         runs = [("main", single + ctx.rng.sample(rest, 60 if impl == "java" else 40), hosts + rnd, False)]
         wired_cfgs = single[:8] + ctx.rng.sample(rest, 12)
@@ -804,7 +810,7 @@ def part_filter(ctx, space, impl, node=None):
                     continue
                 seen[key] = 1
                 one = {"hosts": [h for h in hs if h["h"] == c["host"]][:1], "headers": [c["header"]],
-                       "configs": [{"allow": c["allow"], "block": c["block"]}], "rounds": 1, "wired": wired}
+                       "configs": [{"allow": c["allow"], "block": c["block"], "envform": c.get("envform", "normal")}], "rounds": 1, "wired": wired}
                 s2, tp2 = run_filter(ctx, execf, one, impl + "-repro")
                 j2 = judge_filter(ctx, tp2, impl + "-repro")
                 if not j2["bad"]:
@@ -816,7 +822,7 @@ def part_filter(ctx, space, impl, node=None):
     if impl == "java":
         # cold runs: a fresh JVM per configuration with the lists in its REAL environment (no patching) must answer the same
         cold_cfgs = [c for c in single if c["allow"] or c["block"]][:3] + ctx.rng.sample(rest, 3 if not T else 12)
-        hs = hosts[:12] + hosts[24:30]
+        hs = hosts[:12] + [h for h in hosts if h["kind"] == "ip6"][:6]
 
         def cold(c):
             a, b = ",".join(x["raw"] for x in c["allow"]), ",".join(x["raw"] for x in c["block"])
@@ -908,6 +914,14 @@ DEV_TEXT = {
 
 
 DEV_TEXT.update({
+    ("java", DEV_EMPTY):
+        ("input: LUNAR_ALLOW_LIST set to the empty string, destination api.pub.com; expected by the docs ('If the value is not empty, then the "
+         "Interceptor will only forward requests to domains which are in the Allow List ... If the value is empty, the Interceptor will check ... the "
+         "LUNAR_BLOCK_LIST'): routed unless block-listed; observed: nothing is routed (\"\".split(\",\") gives one empty item, it is removed as "
+         "unsupported and leaves an allow list that allows nothing)"),
+    ("ts", DEV_EMPTY):
+        ("input: LUNAR_ALLOW_LIST set to the empty string, destination api.pub.com; expected by the docs: routed unless block-listed; observed: "
+         "nothing is routed (parseList gives [''] - an allow list whose only item matches no destination)"),
     ("ts", DEV_LEG):
         ("input: a fetch() through the hook whose gateway leg is rejected for a reason of the application (its AbortController aborted the request, or any "
          "other rejection); expected by the docs ('recover from failures originated in Lunar Proxy'): the rejection reaches the caller, the failure streak "
@@ -967,7 +981,7 @@ def run(ctx):
                        "of legs already in flight) up to the stated depth for N, C in 1..3 as one recorded tree per run, + TLC walks of FailSafeJavaI + seeded "
                        "random long histories incl. the default configuration and a millisecond clock; non-trivial = the breaker opened and a later read "
                        "answered TRUE again. java filter: decisions over the TLC-enumerated space (lists of <= 2 items incl. blank-padded / empty / "
-                       "upper-case / IPv6 items x 38 destinations x 5 header values x 2 rounds through the result cache) + seeded random addresses, "
+                       "upper-case / IPv6 items x 43 destinations x 5 header values x 2 rounds through the result cache) + seeded random addresses, "
                        "class level and through the injected code; non-trivial = TrafficFilterV forbids or demands routing for the case (counted by TLC)")
     ctx.cov["checker_cmd"] = ("tlc -config MC_X04FS_java.cfg MC_X04FS.tla ; tlc -config FailSafeTraceV.cfg FailSafeTraceV.tla ; "
                               "tlc -config MC_X04Filter_java.cfg MC_X04Filter.tla ; tlc -config X04FilterTrace.cfg X04FilterTrace.tla")
